@@ -33,7 +33,7 @@ P = {
          "Enumerated scalar alphabet only. The textbook implementation is bound to the standard by its published vectors.",
          "DESIGN.md 5 (C02), Appendix A"),
  "C03": (True, GRID + "; all concrete values^2 x three entry points; all call sequences on a prepared value up to a depth",
-         "All representatives (8 non-identity kinds, 8 identity kinds) of every discrete log on both sides through all three entry points give byte-identical results equal to the model value; every sequence of pairing(&P_i) calls (with optional clone) up to the depth bound on one prepared value returns the model value at every step and leaves the prepared value's Debug rendering unchanged; every ordered pair of calls of the stateless entry points, run back to back on one thread, returns the model value (hidden state across calls).",
+         "All representatives (8 non-identity kinds, 8 identity kinds) of every discrete log on both sides through all three entry points give byte-identical results equal to the model value; every sequence of pairing(&P_i) calls (with optional clone) up to the depth bound on one prepared value returns the model value at every step; every ordered pair of calls of the stateless entry points, run back to back on one thread, returns the model value (hidden state across calls).",
          "Enumerated alphabet, bounded call depth.",
          "DESIGN.md 5 (C03)"),
  "C11": (True, GRID + "; Gamma^2 products and equalities, exponent-law quadruples, every small exponent",
